@@ -4,6 +4,7 @@ import (
 	"fmt"
 	"os"
 	"path/filepath"
+	"runtime/debug"
 	"strings"
 	"time"
 
@@ -16,7 +17,7 @@ import (
 func init() {
 	register(&Prop{
 		ID:   "C01",
-		Rule: "hostile workloads over all entry points: tag-soup trees (random tags/attributes from the vocabulary every rule of the distiller reads) with the document, random attached elements and their detached clones as roots; every/sampled element of G-article pages as attached and detached root; 24 kinds of hand-built roots (inline roots with text, javascript: anchor roots, nodes without DataAtom, text/comment/doctype/empty-document roots, ...); structure-aware byte mutations of well-formed pages (truncation, dropped end tags, NUL, invalid UTF-8, BOMs, misnested table/select/svg/template fragments, huge attributes) through ApplyForReader and ApplyForFile (also missing path, directory, empty file); hostile pager documents; size stress (<=2000 nesting levels, <=1 MB); all with options drawn from {nil, LogFlags 0..31, 41 plain and odd page URLs or nil, SkipPagination, both algorithms and out-of-range algorithm values}. Oracle: no panic, no process death, CPU per case <= 60 s, and err != nil or Result.Node is a non-nil <div> element. Non-trivial = a call that returned a result (not an error); distinct = distinct (workload kind, root kind/tag, option shape).",
+		Rule: "hostile workloads over all entry points: tag-soup trees (random tags/attributes from the vocabulary every rule of the distiller reads) with the document, random attached elements and their detached clones as roots; every/sampled element of G-article pages as attached and detached root; 24 kinds of hand-built roots (inline roots with text, javascript: anchor roots, nodes without DataAtom, text/comment/doctype/empty-document roots, ...); structure-aware byte mutations of well-formed pages (truncation, dropped end tags, NUL, invalid UTF-8, BOMs, misnested table/select/svg/template fragments, huge attributes) through ApplyForReader and ApplyForFile (also missing path, directory, empty file); hostile pager documents; size stress (<=2000 nesting levels, <=1 MB; flat runs of <=1.4 million siblings after a numeric link, 5.6 MB; run with the 250 MB goroutine stack limit of 32-bit Go); all with options drawn from {nil, LogFlags 0..31, 41 plain and odd page URLs or nil, SkipPagination, both algorithms and out-of-range algorithm values}. Oracle: no panic, no process death, CPU per case <= 60 s, and err != nil or Result.Node is a non-nil <div> element. Non-trivial = a call that returned a result (not an error); distinct = distinct (workload kind, root kind/tag, option shape).",
 		Assumptions: []string{
 			"termination is restated as bounded progress: inputs are <= ~1 MB and <= 2000 nesting levels and a case that burns 60 s of CPU is reported as non-terminating (the slowest conforming case measured takes < 4 s)",
 			"cyclic node graphs and nil roots are outside the Go contract of Apply and are not generated",
@@ -270,13 +271,17 @@ func runC01(c *Ctx, idx int) {
 		case sub%8 == 0: // size stress
 			src, what := bigInput(sub/8, r)
 			c.Inc("big_inputs")
-			before := cpuNow()
-			ok := c.c01Bytes("big:"+what, src, &distiller.Options{OriginalURL: mustURL("http://example.com/a/2"), PaginationAlgo: distiller.PaginationAlgo(sub % 2)}, false)
-			used := (cpuNow() - before).Milliseconds()
-			if used > c.counters["max_cpu_ms_one_call"] {
-				c.counters["max_cpu_ms_one_call"] = used // merged by max? parent sums; kept as indicative only
+			// a calling process with the goroutine stack limit that is the default of Go on
+			// 32-bit platforms (250 MB; the 64-bit default is 1 GB): recursion over the
+			// nesting depth explored here (<= 2000) fits in it thousands of times over
+			defer debug.SetMaxStack(debug.SetMaxStack(250 << 20))
+			c.flush()
+			for _, algo := range []distiller.PaginationAlgo{distiller.PageNumber, distiller.PrevNext} { // both pagination finders walk the siblings
+				c.Inc("big_calls_algo_" + fmt.Sprint(int(algo)))
+				if !c.c01Bytes("big:"+what, src, &distiller.Options{OriginalURL: mustURL("http://example.com/a/1"), PaginationAlgo: algo}, false) {
+					return
+				}
 			}
-			_ = ok
 		case sub%8 == 1: // file edge cases
 			for _, p := range []string{filepath.Join(c.scratch, "does-not-exist.html"), c.scratch, ""} {
 				path := p
